@@ -8,6 +8,8 @@ Theorem C19_exit_status : forall hash stamp ch inp f auto eng,
   r_exit (plan_report hash stamp ch inp f auto eng) =
   match inp with
   | Missing | NotAFile | EmptyInput => E1
+  | Undecodable => E2          (* bytes that are not UTF-8 text end in the 'unexpected error' branch: the code
+                                  as it is - the property names only missing / empty / unreadable input for 1 *)
   | Content b => match eng b with
                  | EngineFailed => E2
                  | EngineOk files => match pick_auto auto f files with Some _ => E0 | None => E2 end
